@@ -143,6 +143,43 @@ def C18_in_iff_stmt : Prop :=
   ∀ (root : XVal) (sought : List Str) (r : Option (List Hit)),
     findallL false root sought = .ok r → containsL root sought = .ok (nonEmpty r)
 
+/-- **C18 (findfirst), proved part.**  For every expression without a `..` step (names, `*`,
+`**`, indexes, `text()` conditions; any length) `findfirst` is the first `findall` result — the
+empty tuple (`none`) when `findall` finds nothing — and `findall` never returns `None`. -/
+theorem C18_findfirst_partial (root : XVal) (sought : List Str) (hs : NoUp sought)
+    (r : Option (List Hit)) (h : findallL false root sought = .ok r) :
+    findfirstL root sought = .ok (firstOf r) ∧ r ≠ none := by
+  obtain ⟨h1, _, l, _, hl, _, _⟩ := findfirst_noUp root sought hs r h
+  exact ⟨h1, by simp [hl]⟩
+
+/-- **C18 (in), proved part.**  For every expression without a `..` step, `xp in doc` is true
+exactly when `findall(xp)` is a non-empty list (fix C18-a applied). -/
+theorem C18_in_iff_partial (root : XVal) (sought : List Str) (hs : NoUp sought)
+    (r : Option (List Hit)) (h : findallL false root sought = .ok r) :
+    containsL root sought = .ok (nonEmpty r) := by
+  obtain ⟨_, h2, _⟩ := findfirst_noUp root sought hs r h
+  rw [h2]
+  cases r with
+  | none => rfl
+  | some l => cases l <;> rfl
+
+/-- with `find_first=True` `findall` returns a prefix of what it returns otherwise (no `..`) -/
+theorem C18_find_first_prefix (root : XVal) (sought : List Str) (hs : NoUp sought)
+    (l : List Hit) (h : findallL false root sought = .ok (some l)) :
+    ∃ l', findallL true root sought = .ok (some l') ∧ l' <+: l := by
+  obtain ⟨_, _, l0, l', hl, hT, hp⟩ := findfirst_noUp root sought hs _ h
+  cases hl
+  exact ⟨l', hT, hp⟩
+
+example : NoUp [s "**", s "a[text()!=z]"] := by
+  intro x hx
+  simp at hx
+  rcases hx with rfl | rfl <;> decide
+example : findallL false (parseNode exDoc) [s "a[*]"] =
+    .ok (some [([s "a[0]"], .text (some (s "x"))), ([s "a[1]"], .text (some (s "z")))]) := by decide +kernel
+example : findallL true (parseNode exDoc) [s "a[*]"] =
+    .ok (some [([s "a[0]"], .text (some (s "x")))]) := by decide +kernel
+
 /-- `<r><a><b/><b/></a><a/></r>` -/
 def cexDoc : Elem :=
   .mk (s "r") none [] [
